@@ -1096,11 +1096,17 @@ func (o *ovsdbClient) monitor(ctx context.Context, cookie MonitorCookie, reconne
 	case ovsdb.MonitorRPC:
 		var reply ovsdb.TableUpdates
 		err = o.rpcClient.CallWithContext(ctx, monitor.Method, args, &reply)
-		tableUpdates = reply
+		if err == nil {
+			// (after an error the call may still be pending: a late
+			// reply is decoded into reply)
+			tableUpdates = reply
+		}
 	case ovsdb.ConditionalMonitorRPC:
 		var reply ovsdb.TableUpdates2
 		err = o.rpcClient.CallWithContext(ctx, monitor.Method, args, &reply)
-		tableUpdates = reply
+		if err == nil {
+			tableUpdates = reply
+		}
 	case ovsdb.ConditionalMonitorSinceRPC:
 		var reply ovsdb.MonitorCondSinceReply
 		err = o.rpcClient.CallWithContext(ctx, monitor.Method, args, &reply)
@@ -1110,8 +1116,8 @@ func (o *ovsdbClient) monitor(ctx context.Context, cookie MonitorCookie, reconne
 			// hold that state, so this is the id to ask for next time
 			monitor.LastTransactionID = reply.LastTransactionID
 			lastTransactionFound = reply.Found
+			tableUpdates = reply.Updates
 		}
-		tableUpdates = reply.Updates
 	default:
 		return fmt.Errorf("unsupported monitor method: %v", monitor.Method)
 	}
@@ -1228,6 +1234,8 @@ func (o *ovsdbClient) Echo(ctx context.Context) error {
 		if err == rpc2.ErrShutdown {
 			return ErrNotConnected
 		}
+		// the call is still pending: a late reply is decoded into reply
+		return err
 	}
 	if !reflect.DeepEqual(args, reply) {
 		return fmt.Errorf("incorrect server response: %v, %v", args, reply)
